@@ -454,13 +454,17 @@ def exDoc' : Val := .obj [([0x61], .num (.dec (.fin false 10 (-1)))), ([0x62], .
 
 theorem exNode_noDiv : (desugar exNode).NoDiv := by
   simp only [exNode, desugar, Tree.NoDiv, Tree.Ops, and_true, true_and, ne_eq, reduceCtorEq, not_false_eq_true]
-  exact ⟨⟨[0x32].foldl (fun _ _ => Dec.fin false 2 0) (Dec.fin false 2 0), by decide, by decide⟩, by simp [Val.NoFloat, Num.NoFloat]⟩
+  exact ⟨⟨.fin false 2 0, by decide, by decide⟩, by simp [Val.NoFloat, Num.NoFloat]⟩
+
+theorem nr_ok {a b : Num} (h : Num.SameValue a b) (ha : NumOK a) (hb : NumOK b) (hn : a.NoFloat) (hn' : b.NoFloat) :
+    NR nf a b := ⟨h, .inl ⟨ha, hb⟩, fun _ => ⟨hn, hn'⟩⟩
 
 theorem exDoc_vr : VR true exDoc exDoc' := by
-  simp only [exDoc, exDoc', VR, VRF, NR, NumOK, and_true, true_and]
-  refine ⟨⟨⟨_, _, rfl, rfl, by decide⟩, .inl ⟨by decide, by decide⟩, fun _ => ⟨trivial, trivial⟩⟩,
-    ⟨⟨.fin false 15 (-1), _, by decide, rfl, by decide⟩, .inl ⟨trivial, by decide⟩, fun _ => ⟨trivial, trivial⟩⟩,
-    ⟨⟨_, _, rfl, rfl, by decide⟩, .inl ⟨by decide, by decide⟩, fun _ => ⟨trivial, trivial⟩⟩⟩
+  simp only [exDoc, exDoc', VR, VRF, and_true, true_and]
+  refine ⟨nr_ok ⟨_, _, rfl, rfl, by decide⟩ ?_ ?_ trivial trivial,
+    nr_ok ⟨.fin false 15 (-1), _, by decide, rfl, by decide⟩ trivial ?_ trivial trivial,
+    nr_ok ⟨_, _, rfl, rfl, by decide⟩ ?_ ?_ trivial trivial⟩
+  all_goals first | (simp only [NumOK, IntKind.InRange]; decide) | (simp only [NumOK, Dec.Bounded]; decide)
 
 example : RR (VR true) (evaluate exNode exDoc) (evaluate exNode exDoc') := evaluate_congr_fragment exNode_noDiv exDoc_vr
 
